@@ -377,6 +377,32 @@ func tryAllParsers(pp []pars.Parser) pars.Parser {
 	}
 }
 
+// genbankFieldNames are the fields and subfields GenBankParser reads.
+var genbankFieldNames = []string{
+	"DEFINITION", "ACCESSION", "VERSION", "DBLINK", "KEYWORDS", "SOURCE",
+	"ORGANISM", "REFERENCE", "AUTHORS", "CONSRTM", "TITLE", "JOURNAL",
+	"PUBMED", "REMARK", "COMMENT", "FEATURES", "CONTIG", "ORIGIN",
+}
+
+// misalignedFieldName returns the name of the field or subfield an indented
+// line starts with, if it is one the parser reads.
+func misalignedFieldName(line []byte) string {
+	trimmed := strings.TrimLeft(string(line), " ")
+	if len(trimmed) == len(line) {
+		return ""
+	}
+	word := strings.TrimRight(trimmed, "\r")
+	if i := strings.IndexByte(word, ' '); i >= 0 {
+		word = word[:i]
+	}
+	for _, name := range genbankFieldNames {
+		if word == name {
+			return name
+		}
+	}
+	return ""
+}
+
 // GenBankParser attempts to parse a single GenBank record.
 func GenBankParser(state *pars.State, result *pars.Result) error {
 	if err := genbankLocusParser(state, result); err != nil {
@@ -443,6 +469,12 @@ func GenBankParser(state *pars.State, result *pars.Result) error {
 				return err
 			}
 			pars.Line(state, result)
+			// A line no parser took is skipped, unless it is one of the fields
+			// this parser reads with the wrong indent: skipping that would
+			// silently drop it and whatever belongs to it.
+			if name := misalignedFieldName(result.Token); name != "" {
+				return pars.NewError(fmt.Sprintf("uneven indent in field %s", name), state.Position())
+			}
 			if pars.End(state, result) == nil {
 				return errGenBankField
 			}
